@@ -23,7 +23,7 @@ ASSUMPTIONS = ['free keys never collide with reserved long names (weight, charge
                'q inside coarse FRAGMENTS is parsed with the fragment dialect (no reserved q); reported as diagnostic only']
 MECHANISMS = [('cgsmiles.dialects', '_parse_dialect_string'), ('cgsmiles.dialects', 'check_and_cast_types'),
               ('cgsmiles.cgsmiles_utils', 'read_fragment_cgsmiles'), ('cgsmiles.pysmiles_utils', 'read_fragment_smiles')]
-SIZES = {'quick': 6000, 'thorough': 150000}
+SIZES = {'quick': 12000, 'thorough': 150000}
 
 
 def all_spellings(rng, level, res, free, limit=8):
@@ -46,7 +46,17 @@ def e2e_case(rng):
     single_atom = False
     for ui in range(rng.randint(1, 2)):
         for _ in range(50):
-            g = M.gen_molecule(rng, max_heavy=rng.choice([1, 1, 2, 3, 4, 6]), p_arom=0.0, p_ring=0.2, charged=False)
+            if rng.random() < 0.4:
+                # units with an aromatic ring: aliphatic atoms written directly in front of aromatic ones (Sc, Cn, Cc ...)
+                g = M.gen_molecule(rng, max_heavy=rng.choice([8, 10]), p_arom=0.9, p_ring=0.1, charged=False, triple=False)
+                # aryl thioethers / thiols: 'Sc' is the one everyday pair of an aliphatic and an aromatic atom that also spells an element
+                cand = [n for n in g if not g.nodes[n]['aromatic'] and g.nodes[n]['element'] == 'C' and g.degree(n) <= 2
+                        and all(d['order'] == 1 for _, _, d in g.edges(n, data=True)) and any(g.nodes[x]['aromatic'] for x in g[n])]
+                if cand and rng.random() < 0.7:
+                    n = rng.choice(cand)
+                    g.nodes[n].update(element='S', cap=2, hcount=2 - g.degree(n))
+            else:
+                g = M.gen_molecule(rng, max_heavy=rng.choice([1, 1, 2, 3, 4, 6]), p_arom=0.0, p_ring=0.2, charged=False)
             slots = [n for n in g for _ in range(g.nodes[n]['hcount'])]
             if len(slots) >= 2:
                 break
@@ -60,7 +70,7 @@ def e2e_case(rng):
         desc.setdefault(b, []).append(('$', '', 1))
         annots = {}
         for n in g:
-            if rng.random() < 0.5:
+            if rng.random() < 0.5 and not g.nodes[n].get('aromatic'):
                 t, attrs = A.random_annotation(rng, 'frag')
                 if t:
                     annots[n] = (t, attrs)
